@@ -158,6 +158,35 @@ def first_diff(a, b):
 
 
 # ---------------------------------------------------------------- part A on one run
+class Collector:
+    """stand-in for the Check object inside worker processes (merged by the parent)"""
+
+    def __init__(self, seed, thorough, tmp):
+        import random
+        self.rng = random.Random(seed)
+        self.thorough = thorough
+        self.tmp = tmp
+        self.cases, self.counts, self.mismatches = [], {}, []
+
+    def case(self, canonical, nontrivial, sample=None):
+        self.cases.append((canonical, nontrivial, sample))
+
+    def count(self, key, n=1):
+        self.counts[key] = self.counts.get(key, 0) + n
+
+    def mismatch(self, what, case):
+        self.mismatches.append((what, case))
+
+
+def part_a_worker(spec):
+    tmp = os.path.join(spec['tmp'], 'p%d' % os.getpid())
+    os.makedirs(tmp, exist_ok=True)
+    col = Collector(spec['seed'], spec['thorough'], tmp)
+    res = part_a(col, spec['history'], spec['name'].replace('.', '_'), spec['pack'])
+    res.update(cases=col.cases, counts=col.counts, mismatches=col.mismatches, name=spec['name'])
+    return res
+
+
 def trunc_lengths(n, rng, thorough):
     if thorough or n <= 64:
         return list(range(n))
@@ -369,7 +398,55 @@ def part_a(ck, hist, tag, pack=None, model=True):
                 if it['after_fnv']:
                     tail += ' fnv=' + it['after_fnv']
                 model_checks[len(model_lines) - 1] = ('open', exp, tail)
+    # [I] fidelity of the _check_sanity model on index contents the property excludes (damaged /
+    # mismatched indexes): model and implementation must take the same decision on the final file
+    if model and rr.packed is None and snaps:
+        li = load_index_bytes(snaps[-1][1], ck.tmp)
+        try:
+            ends = [t['end'] for t in L.parse_file(rr.final, rr.final[:4])]
+        except L.ParseError:
+            ends = []
+        if li is not None and snaps[-1][0] <= len(evs):
+            pos0, items = li
+            pert = [(pos0, items[1:]), (pos0 + 8, items), (len(rr.final) + 10, items), (99, items)]
+            if items:
+                k, v = items[-1]
+                pert.append((pos0, items[:-1] + [(k, v + 1)]))
+                pert.append((pos0, [(k_, 4) for k_, _ in items]))
+            for e in ends:
+                if e != pos0:
+                    pert.append((e, items))
+            for ppos, pitems in pert[:12]:
+                got = open_perturbed(wd, rr.final, ppos, pitems, oids, tids)
+                model_lines.append('setidx %d %s' % (ppos, ','.join('%016x:%d' % kv for kv in pitems) or '-'))
+                model_lines.append('open %d 0 -1 0' % len(slot_of))
+                slot_of['pert%d' % len(slot_of)] = len(slot_of)
+                model_checks[len(model_lines) - 1] = ('open', got[0], got[1]) if isinstance(got, tuple) else got
+                ck.count('perturbed-index-used=%s' % (got[0][5] if isinstance(got, tuple) else 'err'))
     return dict(violations=viol, lines=model_lines, checks=model_checks, hist=hist)
+
+
+def open_perturbed(wd, data, pos, items, oids, tids):
+    """real open of `data` with an index file holding (pos, items), written by the real fsIndex.save"""
+    from ZODB.fsIndex import fsIndex
+    from ZODB.FileStorage import FileStorage
+    L.write_dir(wd, {'Data.fs': data})
+    ix = fsIndex()
+    for k, v in items:
+        ix[L.p64(k)] = v
+    ix.save(pos, os.path.join(wd, 'Data.fs.index'))
+    try:
+        fs = FileStorage(os.path.join(wd, 'Data.fs'))
+    except Exception as e:
+        return c01.ERRKIND.get(type(e).__name__, 'err:Other(%s)' % type(e).__name__)
+    try:
+        its = [(L.u64(k), v) for k, v in fs._index.items()]
+        exp = 'used=%d pos=%d ltid=%016x maxoid=%016x' % (fs._used_index, fs._pos, L.u64(fs.lastTransaction()),
+                                                         L.u64(fs._oid))
+        tail = 'n=%d ixfnv=%s' % (len(its), ix_fnv(its))
+    finally:
+        fs.close()
+    return exp, tail
 
 
 def _pre_pack_view(rr):
@@ -493,16 +570,26 @@ REFUSALS = {'store': {'ReadOnly'}, 'deleteObject': {'ReadOnly'}, 'restore': {'Re
             'copyTransactionsFrom': {'ReadOnly'}, 'storeBlob': {'ReadOnly', 'exc:Unsupported'}}
 
 
-def ro_session(ck, rng, idx):
-    """one read-only session; returns (violations, model line, expected model output)"""
+def gen_ro_spec(rng, idx):
+    """a self-contained, replayable read-only session"""
+    n = rng.choice([4, 8, 12, 20])
+    return dict(history=L.gen_history(rng, 'small', ntx=rng.choice([1, 2, 3, 4])),
+                mode=rng.choice(['closed', 'closed', 'tail', 'tail', 'writer', 'writer', 'writer-voted']),
+                calls=[rng.choice(READ_APIS + WRITE_APIS + WRITE_APIS + OTHER_APIS + EXTRA_REAL) for _ in range(n)] + ['close'],
+                seed=rng.randrange(1 << 30), index=idx)
+
+
+def ro_session(ck, spec):
+    """one read-only session; returns (violations, model line, expected model output, mode, calls)"""
+    import random
     from ZODB.FileStorage import FileStorage
     from ZODB.Connection import TransactionMetaData
-    root = os.path.join(ck.tmp, 'ro-%d' % idx)
+    rng = random.Random(spec['seed'])
+    root = os.path.join(ck.tmp, 'ro-%d' % spec.get('index', 0))
     if os.path.exists(root):
         shutil.rmtree(root)
-    hist = L.gen_history(rng, 'small', ntx=rng.choice([1, 2, 3, 4]))
+    hist, mode = spec['history'], spec['mode']
     oids, tids = c01.history_oids_tids(hist)
-    mode = rng.choice(['closed', 'closed', 'tail', 'tail', 'writer', 'writer', 'writer-voted'])
     viol = []
     rr = L.run_history(hist, root, keep_open=(mode.startswith('writer')))
     path = os.path.join(root, 'Data.fs')
@@ -536,15 +623,18 @@ def ro_session(ck, rng, idx):
             sig = 'C09:ro-open-raised'
             if isinstance(e, OSError) and e.errno == 22:
                 sig = 'C09:sanity-walk-before-file-start'
+            if isinstance(e, OSError) and e.errno == 30:        # EROFS raised by the VFS read-only guard
+                sig = 'C09:ro-mutated:open'
             viol.append((sig, 'read-only open (%s) raised %s %s' % (mode, L.ename(e), str(e)[:120]),
-                         dict(history=hist, mode=mode)))
+                         dict(spec, calls=[])))
             if writer is not None:
                 if md is not None:
                     writer.tpc_abort(md)
                 writer.close()
             return viol, None, None, mode, []
-        n = rng.choice([4, 8, 12, 20])
-        names = [rng.choice(READ_APIS + WRITE_APIS + WRITE_APIS + OTHER_APIS + EXTRA_REAL) for _ in range(n)] + ['close']
+        names = list(spec['calls'])
+        if not names or names[-1] != 'close':
+            names.append('close')
         for name in names:
             out = call_api(ro, name, oids, tids, rng)
             calls.append(name)
@@ -553,13 +643,13 @@ def ro_session(ck, rng, idx):
             ck.count('out:' + out.split(':')[0] if not out.startswith('exc') else 'out:' + out)
             if name in REFUSALS and out not in REFUSALS[name]:
                 viol.append(('C09:ro-write-not-refused:' + name, 'read-only instance (%s): %s returned %s instead of '
-                             'raising ReadOnlyError' % (mode, name, out), dict(history=hist, mode=mode, calls=calls[:])))
+                             'raising ReadOnlyError' % (mode, name, out), dict(spec, calls=calls[:])))
             bad = [e for e in rec.events if e[0] == 'VIOLATED-RO']
             after = vfs.snapshot(root)
             if bad or after != before:
                 changed = sorted(k for k in set(before) | set(after) if before.get(k) != after.get(k))
                 viol.append(('C09:ro-mutated:' + name, 'read-only instance (%s): %s modified the directory (%s; events %s)'
-                             % (mode, name, changed, [b[1:3] for b in bad][:3]), dict(history=hist, mode=mode, calls=calls[:])))
+                             % (mode, name, changed, [b[1:3] for b in bad][:3]), dict(spec, calls=calls[:])))
                 rec.events[:] = [e for e in rec.events if e[0] != 'VIOLATED-RO']
                 before = after
             # let the writer make progress between the read-only calls
@@ -607,11 +697,12 @@ def main(argv=None):
     ck.run_gate(ck.extra['modules'], ['Props.C09'])
     runs = []          # (name, history, pack)
     nro = 0
+    ro_specs = []
     if ck.replay_path:
         with open(ck.replay_path) as f:
             j = json.load(f)['case']
-        if 'calls' in j or 'mode' in j:
-            nro = 60            # read-only sessions are regenerated from the seed (the session is in the case for reading)
+        if 'calls' in j:
+            ro_specs = [j]
         else:
             runs = [('replay', j['history'], j.get('pack'))]
     else:
@@ -625,21 +716,50 @@ def main(argv=None):
             runs.append(('pack%d' % i, gen_pack_history(ck.rng, align=(i % 3 != 0)), False))
         nro = 50 if not ck.thorough else 2000
     all_lines, expectations = [], []
-    for name, hist, pack in runs:
-        res = part_a(ck, hist, name.replace('.', '_'), pack)
+    specs = [dict(name=name, history=hist, pack=pack, seed=ck.rng.randrange(1 << 30), thorough=ck.thorough,
+                  tmp=ck.tmp) for name, hist, pack in runs]
+    procs = int(os.environ.get('VERIF_PROCS', '8' if not ck.thorough else '16'))
+    if procs > 1 and len(specs) > 2:
+        import multiprocessing
+        with multiprocessing.get_context('fork').Pool(procs) as pool:
+            results = pool.map(part_a_worker, specs, chunksize=1)
+    else:
+        results = [part_a_worker(sp) for sp in specs]
+    for res in results:
+        for canonical, nontriv, sample in res['cases']:
+            ck.case(canonical, nontriv, sample)
+        for k, v in res['counts'].items():
+            ck.count(k, v)
+        for what, case in res['mismatches']:
+            ck.mismatch(what, case)
         for sig, what, case in res['violations']:
             ck.violation(sig, what, case)
-        expectations.append((name, hist, len(all_lines), res['checks']))
+        expectations.append((res['name'], res['hist'], len(all_lines), res['checks']))
         all_lines += res['lines']
     # ---- read-only sessions
     api_lines = []
-    for i in range(nro):
+    ro_specs += [gen_ro_spec(ck.rng, i) for i in range(nro)]
+    for i, spec in enumerate(ro_specs):
         try:
-            viol, line, exp, mode, calls = ro_session(ck, ck.rng, i)
+            viol, line, exp, mode, calls = ro_session(ck, spec)
         except Exception as e:
             ck.violation('C09:ro-session-raised', 'setting up / running read-only session %d raised %s: %s'
-                         % (i, type(e).__name__, str(e)[:160]), dict(mode='session', index=i))
+                         % (i, type(e).__name__, str(e)[:160]), spec)
             continue
+        if viol and len(spec['calls']) > 2:
+            # shrink the call list (the session is self-contained)
+            sig0 = viol[0][0]
+
+            def fails(sub, spec=spec, sig0=sig0):
+                v = ro_session(ck, dict(spec, calls=list(sub)))[0]
+                return any(x[0] == sig0 for x in v)
+            try:
+                small = ddmin(spec['calls'], fails, max_tests=30)
+                v2 = ro_session(ck, dict(spec, calls=list(small)))[0]
+                if any(x[0] == sig0 for x in v2):
+                    viol = [x for x in v2 if x[0] == sig0] + [x for x in viol if x[0] != sig0]
+            except Exception:
+                pass
         ck.count('ro-mode:' + mode)
         nwrites = sum(1 for c in calls if c in REFUSALS)
         ck.case(['ro', i, mode, calls], nwrites >= 1,
